@@ -137,6 +137,8 @@ struct mtree_writer {
 		int		keys;
 		int64_t		uid;
 		int64_t		gid;
+		struct archive_string uname;	/* empty: /set has none */
+		struct archive_string gname;
 		mode_t		mode;
 		unsigned long	fflags_set;
 		unsigned long	fflags_clear;
@@ -502,6 +504,8 @@ write_global(struct mtree_writer *mtree)
 		}
 	}
 	if ((keys & effkeys & F_UNAME) != 0) {
+		archive_string_copy(&mtree->set.uname,
+		    &(acs->uid_list->m_entry->uname));
 		if (archive_strlen(&(acs->uid_list->m_entry->uname)) > 0) {
 			archive_strcat(&setstr, " uname=");
 			mtree_quote(&setstr, acs->uid_list->m_entry->uname.s);
@@ -517,6 +521,8 @@ write_global(struct mtree_writer *mtree)
 		    (intmax_t)mtree->set.uid);
 	}
 	if ((keys & effkeys & F_GNAME) != 0) {
+		archive_string_copy(&mtree->set.gname,
+		    &(acs->gid_list->m_entry->gname));
 		if (archive_strlen(&(acs->gid_list->m_entry->gname)) > 0) {
 			archive_strcat(&setstr, " gname=");
 			mtree_quote(&setstr, acs->gid_list->m_entry->gname.s);
@@ -723,6 +729,14 @@ attr_counter_set_free(struct mtree_writer *mtree)
 }
 
 static int
+same_name(struct archive_string *a, struct archive_string *b)
+{
+	return (archive_strlen(a) == archive_strlen(b) &&
+	    (archive_strlen(a) == 0 ||
+	     memcmp(a->s, b->s, archive_strlen(a)) == 0));
+}
+
+static int
 get_global_set_keys(struct mtree_writer *mtree, struct mtree_entry *me)
 {
 	int keys;
@@ -736,12 +750,19 @@ get_global_set_keys(struct mtree_writer *mtree, struct mtree_entry *me)
 	if (mtree->set.keys == 0)
 		return (keys);/* /set is not used. */
 
+	/* The same number does not always come with the same name. */
 	if ((mtree->set.keys & (F_GNAME | F_GID)) != 0 &&
-	     mtree->set.gid == me->gid)
-		keys &= ~(F_GNAME | F_GID);
+	     mtree->set.gid == me->gid) {
+		keys &= ~F_GID;
+		if (same_name(&mtree->set.gname, &me->gname))
+			keys &= ~F_GNAME;
+	}
 	if ((mtree->set.keys & (F_UNAME | F_UID)) != 0 &&
-	     mtree->set.uid == me->uid)
-		keys &= ~(F_UNAME | F_UID);
+	     mtree->set.uid == me->uid) {
+		keys &= ~F_UID;
+		if (same_name(&mtree->set.uname, &me->uname))
+			keys &= ~F_UNAME;
+	}
 	if (mtree->set.keys & F_FLAGS) {
 		if (mtree->set.fflags_set == me->fflags_set &&
 		    mtree->set.fflags_clear == me->fflags_clear)
@@ -1253,6 +1274,8 @@ archive_write_mtree_free(struct archive_write *a)
 	archive_string_free(&mtree->cur_dirstr);
 	archive_string_free(&mtree->ebuf);
 	archive_string_free(&mtree->buf);
+	archive_string_free(&mtree->set.uname);
+	archive_string_free(&mtree->set.gname);
 	attr_counter_set_free(mtree);
 	free(mtree);
 	a->format_data = NULL;
